@@ -24,7 +24,9 @@ ASSUMPTIONS = ["reference model + AD trusted after self-test", "cases whose refe
 
 @S.composite
 def strategy_(g):
-    return GG.gen(g, n_pose=(2, 8), n_lm=(0, 3), n_loops=(0, 3), conds=(1.0, 1e2, 1e3), noise=(0.05, 0.05), pert=(0.3, 0.3))
+    case = GG.gen(g, n_pose=(2, 8), n_lm=(0, 3), n_loops=(0, 3), conds=(1.0, 1e2, 1e3), noise=(0.05, 0.05), pert=(0.3, 0.3))
+    case["n_steps"] = g.choice([1, 1, 2, 3])
+    return case
 
 
 def strategy(tier):
@@ -46,4 +48,11 @@ def check(case, ctx):
     S_ = GG.S_of(case)
 
     g = GG.build(case)
-    GC.gn_step_oracle(ctx, case, g, case["fix_first"], S_)
+    # consecutive iterations on the same live graph: each one must be the Gauss-Newton step of the state it starts from
+    # (anything remembered from an earlier evaluation - cached blocks, buffers - shows up from the second one on)
+    for it in range(case.get("n_steps", 1)):
+        if GC.gn_step_oracle(ctx, case, g, case["fix_first"], S_):
+            return
+        if not GC.all_finite(g):
+            return
+    ctx.event("steps:%d" % case.get("n_steps", 1))
